@@ -10,7 +10,7 @@ Inductive sres := Fuel | Raise | Fails | Match (v : value) (p : nat).
 
 Definition mnv0 (mn : option nat) := match mn with Some m => m | None => 0 end.
 (* e{m,n} with m > n is rejected by the constructor when both are literals; with
-   run-time bounds it is undefined: the specification makes no claim (Raise) *)
+   run-time bounds the list fails: never more than n elements, and n < m are too few *)
 Definition bounds_conflict (mn mx : option nat) : bool :=
   match mx with Some m => Nat.ltb m (mnv0 mn) | None => false end.
 
@@ -158,8 +158,12 @@ Fixpoint peg (n : nat) (E : env) (e : expr) (p : nat) : sres :=
         match mx with
         | BLit 0 => Match (VList []) p
         | _ => match bound_val E mn, bound_val E mx with
-               | Some mnv, Some mxv => if bounds_conflict mnv mxv then Raise
-                                       else rep_spec (peg n E) n e mnv mxv p []
+               | Some mnv, Some mxv =>
+                   (* run-time bounds with lower > upper: at most `upper` elements are taken, which is fewer than
+                      the lower bound asks for: the list fails (the constructor rejects such literal bounds) *)
+                   if bounds_conflict mnv mxv
+                   then match rep_spec (peg n E) n e mnv mxv p [] with Match _ _ => Fails | other => other end
+                   else rep_spec (peg n E) n e mnv mxv p []
                | _, _ => Raise end
         end
     | Expect e => match peg n E e p with Match v _ => Match v p | other => other end
